@@ -9,6 +9,7 @@ import (
 	"strings"
 	"testing"
 	"time"
+	"unsafe"
 
 	"github.com/philpearl/avro"
 	"pgregory.net/rapid"
@@ -229,8 +230,55 @@ func runC15With(c c15Case, strict bool, schemaForType func(interface{}) (avro.Sc
 	return nt, labels, nil
 }
 
+// An unnamed composite type with a registered schema and codec: registrations
+// are keyed by reflect.Type, a type need not be a defined type with a package
+// path to have one. (Go arrays of length 5 are never generated otherwise.)
+type u16x5Codec struct{}
+
+func (u16x5Codec) Read(r *avro.ReadBuf, p unsafe.Pointer) error {
+	b, err := r.Next(10)
+	if err != nil {
+		return err
+	}
+	copy(unsafe.Slice((*byte)(p), 10), b)
+	return nil
+}
+func (u16x5Codec) Skip(r *avro.ReadBuf) error         { _, err := r.Next(10); return err }
+func (u16x5Codec) New(r *avro.ReadBuf) unsafe.Pointer { return r.Alloc(u16x5Type) }
+func (u16x5Codec) Omit(p unsafe.Pointer) bool         { return false }
+func (u16x5Codec) Write(w *avro.WriteBuf, p unsafe.Pointer) {
+	b := unsafe.Slice((*byte)(p), 10)
+	avro.BytesCodec{}.Write(w, unsafe.Pointer(&b))
+}
+
+var u16x5Type = reflect.TypeOf([5]uint16{})
+
+func init() {
+	schema := ref.Prim("bytes") // unnamed, so that using the type twice defines nothing twice (cf. KF-C15-1)
+	avro.Register(u16x5Type, func(s avro.Schema, typ reflect.Type, omit bool) (avro.Codec, error) {
+		if s.Type != "bytes" {
+			return nil, fmt.Errorf("[5]uint16 needs a bytes schema")
+		}
+		return u16x5Codec{}, nil
+	})
+	avro.RegisterSchema(u16x5Type, toLib(schema))
+	spec.Custom["cu16x5"] = &spec.CustomKind{
+		Type: u16x5Type, Schema: schema, Base: "int64",
+		Set: func(dst reflect.Value, v spec.ValueSpec) { dst.Index(0).SetUint(uint64(uint16(v.I))) },
+		Abs: func(v reflect.Value) spec.AbsVal {
+			b := make([]byte, 10)
+			for i := 0; i < 5; i++ {
+				b[2*i], b[2*i+1] = byte(v.Index(i).Uint()), byte(v.Index(i).Uint()>>8)
+			}
+			return spec.AbsVal{K: "bytes", S: b}
+		},
+	}
+}
+
 func drawC15(t *rapid.T) c15Case {
-	o := gen.TypeOpts{MaxDepth: 4, MaxFields: 5, SkipFields: true, Wide: true}
+	o := gen.TypeOpts{MaxDepth: 4, MaxFields: 5, SkipFields: true, Wide: true,
+		Leaves: []string{"bool", "int", "int16", "int32", "int64", "float32", "float64", "string", "bytes",
+			"time", "nullInt", "nullBool", "nullFloat", "nullString", "nullTime", "cu16x5"}}
 	if thorough() {
 		o.MaxDepth = 6
 		o.MaxFields = 6
